@@ -722,9 +722,9 @@ theorem NonRevProof.challengeContributions_isOk (pk : PublicKey) (p : NonRevProo
     exact h.1.1.1.1 _ hm
   · intro _ _; exact GoM.isOk_pure _
 
-theorem NonRevProof.setExpected_structureOk {o : SigOracle} {kid : String} {pk : PublicKey}
+theorem NonRevProof.setExpected_ok {o : SigOracle} {kid : String} {pk : PublicKey}
     {p p' : NonRevProof} {c r : Int} (h : p.setExpected o kid pk c r = some p') :
-    p'.structureOk = true := by
+    p'.structureOk = true ∧ p'.basesAreUnits pk = true ∧ p'.cr = p.cr ∧ p'.cu = p.cu := by
   unfold NonRevProof.setExpected at h
   simp only [Option.bind_eq_bind, Option.pure_def] at h
   split at h
@@ -740,8 +740,31 @@ theorem NonRevProof.setExpected_structureOk {o : SigOracle} {kid : String} {pk :
       · next hs =>
         simp only [Option.some.injEq] at h
         subst h
-        simpa using hs
+        simp only [Bool.or_eq_true, Bool.not_eq_true', not_or, Bool.not_eq_false] at hs
+        exact ⟨hs.1, hs.2, rfl, rfl⟩
 
+theorem NonRevProof.setExpected_structureOk {o : SigOracle} {kid : String} {pk : PublicKey}
+    {p p' : NonRevProof} {c r : Int} (h : p.setExpected o kid pk c r = some p') :
+    p'.structureOk = true := (NonRevProof.setExpected_ok h).1
+
+theorem unitModN_iff (c n : Int) : unitModN c n = true ↔ 0 < c ∧ c < n ∧ Int.gcd c n = 1 := by
+  simp [unitModN, and_assoc]
+
+theorem unitMod_iff (c n : Int) : unitMod c n = true ↔ 0 < c ∧ c < n ∧ Int.gcd c n = 1 := by
+  simp [unitMod, and_assoc]
+
+theorem NonRevProof.basesAreUnits_units {pk : PublicKey} {p : NonRevProof}
+    (h : p.basesAreUnits pk = true) :
+    ∃ cr cu, p.cr = some cr ∧ p.cu = some cu ∧
+      (0 < cr ∧ cr < pk.n ∧ Int.gcd cr pk.n = 1) ∧ (0 < cu ∧ cu < pk.n ∧ Int.gcd cu pk.n = 1) := by
+  unfold NonRevProof.basesAreUnits at h
+  rw [Bool.and_eq_true] at h
+  obtain ⟨h, _⟩ := h
+  split at h
+  · next cr cu hcr hcu =>
+    rw [Bool.and_eq_true, unitModN_iff, unitModN_iff] at h
+    exact ⟨cr, cu, hcr, hcu, h.1, h.2⟩
+  · simp at h
 
 /-! ## 10. names of range-proof secrets -/
 
@@ -837,26 +860,48 @@ theorem RangeProof.extractStructure_secretsOk {rp : RangeProof} {index : Int} {p
   · simp at h
   · exact ⟨_, rangeNewWithParams_secretsOk h⟩
 
-theorem RangeStructure.verifyProofStructure_true {s : RangeStructure} {pk : PublicKey} {p : RangeProof}
+/-- everything `verifyProofStructure` establishes about presence, signs and units. -/
+theorem RangeStructure.verifyProofStructure_facts {s : RangeStructure} {pk : PublicKey} {p : RangeProof}
     (h : s.verifyProofStructure pk p = true) :
-    p.v5.isSome ∧ p.mResponse.isSome ∧
-      ∀ i, i < s.cRep.length → (p.ds[i]?).join.isSome ∧ (p.vs[i]?).join.isSome := by
+    (p.cs.length = s.cRep.length ∧ p.ds.length = s.cRep.length ∧ p.vs.length = s.cRep.length) ∧
+    (∃ v5 m, p.v5 = some v5 ∧ 0 ≤ v5 ∧ p.mResponse = some m ∧ 0 ≤ m) ∧
+    ∀ i, i < s.cRep.length → ∃ c d v, p.cs[i]? = some (some c) ∧ p.ds[i]? = some (some d) ∧
+      p.vs[i]? = some (some v) ∧ 0 ≤ d ∧ 0 ≤ v ∧ (0 < c ∧ c < pk.n ∧ Int.gcd c pk.n = 1) := by
   unfold RangeStructure.verifyProofStructure at h
   simp only [] at h
   split at h
   · simp at h
-  · split at h
+  · next hlen =>
+    simp only [ne_eq, Bool.or_eq_true, decide_eq_true_eq, not_or, not_not] at hlen
+    split at h
     · next v5 m hv5 hm =>
       split at h
       · simp at h
-      · rw [List.all_eq_true] at h
-        refine ⟨by simp [hv5], by simp [hm], ?_⟩
-        intro i hi
-        have := h i (List.mem_range.mpr hi)
-        split at this
-        · next c d v hc hd hv => simp [hd, hv]
-        · simp at this
+      · next hneg =>
+        simp only [Bool.or_eq_true, decide_eq_true_eq, not_or, not_lt] at hneg
+        split at h
+        · simp at h
+        · rw [List.all_eq_true] at h
+          refine ⟨⟨hlen.1.1.symm, hlen.1.2.symm, hlen.2.symm⟩, ⟨v5, m, hv5, hneg.1, hm, hneg.2⟩, ?_⟩
+          intro i hi
+          have := h i (List.mem_range.mpr hi)
+          split at this
+          · next c d v hc hd hv =>
+            simp only [Bool.and_eq_true, Bool.not_eq_true', Bool.or_eq_false_iff,
+              decide_eq_false_iff_not, not_lt] at this
+            exact ⟨c, d, v, hc, hd, hv, this.1.1.1, this.1.1.2, (unitMod_iff c pk.n).mp this.1.2⟩
+          · simp at this
     · simp at h
+
+theorem RangeStructure.verifyProofStructure_true {s : RangeStructure} {pk : PublicKey} {p : RangeProof}
+    (h : s.verifyProofStructure pk p = true) :
+    p.v5.isSome ∧ p.mResponse.isSome ∧
+      ∀ i, i < s.cRep.length → (p.ds[i]?).join.isSome ∧ (p.vs[i]?).join.isSome := by
+  obtain ⟨_, ⟨v5, m, hv5, _, hm, _⟩, hall⟩ := RangeStructure.verifyProofStructure_facts h
+  refine ⟨by simp [hv5], by simp [hm], ?_⟩
+  intro i hi
+  obtain ⟨c, d, v, _, hd, hv, _⟩ := hall i hi
+  simp [hd, hv]
 
 theorem RangeStructure.commitmentsFromProof_isOk {s : RangeStructure} {n : Nat} (hs : s.SecretsOk n)
     {pk : PublicKey} {p : RangeProof} (hv : s.verifyProofStructure pk p = true) (c : Int) :
@@ -1642,5 +1687,49 @@ theorem mem_zip_zip_of_index {α β γ} (l1 : List α) (l2 : List β) (l3 : List
   have hlen : j < ((l1.zip l2).zip l3).length := by simp; omega
   have := List.getElem_mem hlen
   simpa [List.getElem_zip] using this
+
+
+/-! ## 18. units and non-negative responses of accepted sub-proofs -/
+
+theorem RangeStructure.verifyProofStructure_units {s : RangeStructure} {pk : PublicKey} {p : RangeProof}
+    (h : s.verifyProofStructure pk p = true) :
+    (∀ c ∈ p.cs, ∃ x, c = some x ∧ 0 < x ∧ x < pk.n ∧ Int.gcd x pk.n = 1) ∧
+    (∀ d ∈ p.ds, ∃ x, d = some x ∧ 0 ≤ x) ∧ (∀ v ∈ p.vs, ∃ x, v = some x ∧ 0 ≤ x) ∧
+    (∃ x, p.v5 = some x ∧ 0 ≤ x) ∧ (∃ x, p.mResponse = some x ∧ 0 ≤ x) := by
+  obtain ⟨⟨hlc, hld, hlv⟩, ⟨v5, m, hv5, hv50, hm, hm0⟩, hall⟩ :=
+    RangeStructure.verifyProofStructure_facts h
+  refine ⟨?_, ?_, ?_, ⟨v5, hv5, hv50⟩, ⟨m, hm, hm0⟩⟩
+  · intro c hc
+    obtain ⟨i, hi, hget⟩ := List.mem_iff_getElem.mp hc
+    obtain ⟨c', d, v, hc', _, _, _, _, hu⟩ := hall i (by omega)
+    rw [List.getElem?_eq_getElem hi, hget] at hc'
+    exact ⟨c', Option.some.inj hc', hu⟩
+  · intro d hd
+    obtain ⟨i, hi, hget⟩ := List.mem_iff_getElem.mp hd
+    obtain ⟨c', d', v, _, hd', _, hd0, _, _⟩ := hall i (by omega)
+    rw [List.getElem?_eq_getElem hi, hget] at hd'
+    exact ⟨d', Option.some.inj hd', hd0⟩
+  · intro v hv
+    obtain ⟨i, hi, hget⟩ := List.mem_iff_getElem.mp hv
+    obtain ⟨c', d', v', _, _, hv', _, hv0, _⟩ := hall i (by omega)
+    rw [List.getElem?_eq_getElem hi, hget] at hv'
+    exact ⟨v', Option.some.inj hv', hv0⟩
+
+/-- the non-revocation part of an accepted proof: `C_r`, `C_u` are units modulo `n`. -/
+theorem ProofD.accept_nonrev_units {o : SigOracle} {kid : String} {pk : PublicKey} {p : ProofD}
+    {ctx nonce : Int} {issig : Bool} {i1 i2 : Int} {nr : NonRevProof}
+    (h : p.verifyWith o kid pk ctx nonce issig i1 i2 = .ok true) (hnr : p.nonrev = some nr) :
+    ∃ cr cu, nr.cr = some cr ∧ nr.cu = some cu ∧
+      (0 < cr ∧ cr < pk.n ∧ Int.gcd cr pk.n = 1) ∧ (0 < cu ∧ cu < pk.n ∧ Int.gcd cu pk.n = 1) := by
+  obtain ⟨contrib, p', hc, _⟩ := ProofD.verifyWith_ok_true h
+  obtain ⟨_, z, a, c, _, _, _, l1, p1, hstep, _⟩ := ProofD.challengeContribution_ok_some hc
+  rcases hstep with ⟨hnone, _, _⟩ | ⟨nr0, resp, nr', hnr0, _, _, hse, _, _⟩
+  · rw [hnr] at hnone; simp at hnone
+  · rw [hnr] at hnr0
+    simp only [Option.some.injEq] at hnr0
+    subst hnr0
+    obtain ⟨_, hu, hcr, hcu⟩ := NonRevProof.setExpected_ok hse
+    obtain ⟨cr, cu, h1, h2, h3, h4⟩ := NonRevProof.basesAreUnits_units hu
+    exact ⟨cr, cu, by rw [← hcr, h1], by rw [← hcu, h2], h3, h4⟩
 
 end Gabi
